@@ -481,6 +481,13 @@ func actDhShared(e *Env, a J) J {
 
 func actDhCalc(e *Env, a J) J {
 	k := new(security.IKESAKey)
+	if n := gs(a, "obj"); n != "" { // ONE key object through several key exchanges (a retry after INVALID_KE_PAYLOAD / COOKIE)
+		if old, ok := e.objs["dhobj:"+n].(*security.IKESAKey); ok {
+			k = old
+		} else {
+			e.objs["dhobj:"+n] = k
+		}
+	}
 	k.DhInfo = dh.StrToType(dhNames[gi(a, "grp")])
 	r := readerOf(gj(a, "rand"))
 	var pub, shared []byte
